@@ -17,7 +17,7 @@ fn drops() -> u8 {
 // A symbolic sequence of clone/drop operations over up to 4 handles: the payload is dropped exactly once, exactly
 // when the last handle goes; it is readable through every live handle until then (CBMC checks every dereference
 // for use-after-free / double free; the leak check confirms the box is released).
-// @verif prop=C16 tier=quick timeout=900 mem=8 unwind=7 leakcheck=1
+// @verif prop=C16 tier=quick timeout=1200 mem=8 unwind=7 leakcheck=1
 // @enc MinRc::new MinRc::clone MinRc::drop MinRc::inner MinRc::rcbox
 // @sym 5 operations, each: clone handle i / drop handle i (i symbolic, live handles only); payload value
 // @bound 5 operations, at most 4 simultaneous handles
@@ -69,7 +69,7 @@ fn m_clone_drop_sequence() {
 
 // Inductive step on the count word: from an ARBITRARY count, clone adds one (saturating), drop subtracts one,
 // frees exactly at 1 -> 0, and a count locked at usize::MAX never frees (documented leak instead of a double free).
-// @verif prop=C16 tier=quick timeout=600 mem=6 unwind=4
+// @verif prop=C16 tier=quick timeout=1200 mem=6 unwind=4
 // @enc MinRc::clone MinRc::drop
 // @sym the reference count: any usize >= 1 (constructed); one clone or one drop
 // @bound single step (inductive over history length)
